@@ -31,6 +31,7 @@ def avg_linkage(names, D):
 
 class Check(PropCheck):
     pid = 'C15'
+    pure_predicate = True      # (per-case caches in case.meta are recomputed lazily in the parent where needed)
     tol = 1e-9
     rule = ('EXHAUSTIVE integer matrices with entries 1..4 on 3 and 4 taxa (ties everywhere), a sample on 5 taxa; random tie-free matrices to '
             '25 (quick) / 80 (thorough) taxa; ultrametric matrices derived from random clock-like trees; arbitrary taxon order; compared with '
